@@ -26,7 +26,7 @@ PROPS = {
     "C01": {"families": ["api_optimize", "norm_none", "norm_preprocess", "cleanup_execute", "unused_execute", "projection_execute", "symmetry_execute", "minmax_execute", "sumchains_execute", "inline_execute", "inline_is_single", "dep_rule_dependency", "unused_rule_dependency", "math_sympy2ast", "math_ast2sympy_accepts"], "oracle": "sem"},
     "C02": {"families": ["unify_pairs", "unify_sequences", "sumchains_get_var", "sumchains_replace_optimize", "sumchains_execute", "minmax_replace_minimize", "minmax_replace_sum", "minmax_execute", "inline_minimize", "inline_execute"], "oracle": "sem"},
     "C03": {"families": ["binding_body", "binding_head", "norm_inline", "norm_preprocess", "norm_expand_comparisons", "norm_replace_old_aggregates", "cleanup_mappings", "dep_create_domain", "api_optimize"], "oracle": "struct"},
-    "C04": {"families": ["safe_stmt", "unique_variables", "unique_names", "binding_body", "binding_head", "duplication_occurrences", "duplication_collect", "duplication_execute", "projection_good_split", "projection_rule", "api_optimize"], "oracle": "struct"},
+    "C04": {"families": ["safe_stmt", "unique_variables", "unique_names", "binding_body", "binding_head", "duplication_occurrences", "duplication_collect", "duplication_execute", "projection_good_split", "projection_rule", "projection_execute", "cleanup_execute", "unused_execute", "symmetry_execute", "minmax_execute", "sumchains_execute", "inline_minimize", "inline_execute", "norm_preprocess", "math_sympy2ast", "math_negate_agg", "api_optimize"], "oracle": "struct"},
     "C05": {"families": ["norm_replace_old_aggregates", "norm_remove_bounds", "norm_expand_comparisons", "norm_unpool", "norm_preprocess", "norm_exline", "norm_inline", "norm_none"], "oracle": "sem"},
     "C06": {"families": ["projection_good_split", "projection_rule", "projection_execute", "cleanup_execute", "symmetry_execute", "minmax_execute", "sumchains_execute", "api_optimize"], "oracle": "sem"},
     "C07": {"families": ["unique_variables", "unique_names", "dep_names", "dep_domains", "dep_create_domain", "dep_chain", "unused_execute", "projection_execute", "duplication_execute", "symmetry_execute", "minmax_execute", "sumchains_execute", "api_optimize"], "oracle": "struct"},
@@ -38,7 +38,7 @@ PROPS = {
     "C11": {"families": ["symmetry_replace_simple", "symmetry_inequalities", "symmetry_equal_symbols", "symmetry_groups", "symmetry_bundle", "symmetry_process", "symmetry_execute"], "oracle": "sem"},
     "C12": {"families": ["minmax_analysis", "minmax_simple_translation", "minmax_chain_translation", "minmax_process_rule", "minmax_split_element", "minmax_replace_minimize", "minmax_replace_sum", "minmax_execute"], "oracle": "sem"},
     "C13": {"families": ["sumchains_agg_analytics", "sumchains_at_most_rule", "sumchains_init", "sumchains_get_trigger", "sumchains_element_passes", "sumchains_replace_elements", "sumchains_get_var", "sumchains_replace_optimize", "sumchains_execute"], "oracle": "sem"},
-    "C14": {"families": ["math_sympy2ast", "math_ast2sympy_accepts"], "oracle": "sem"},
+    "C14": {"families": ["math_sympy2ast", "math_ast2sympy_accepts", "math_negate_agg", "norm_exline", "norm_inline"], "oracle": "sem"},
     "C15": {"families": ["unify_pairs", "unify_sequences", "inline_is_single", "inline_transform_args", "inline_body_aggregate", "inline_new_body_elements", "inline_minimize", "inline_rule_for_agg", "inline_rule_for_body", "inline_execute"], "oracle": "sem"},
     "C16": {"families": ["projection_subsets", "projection_good_split", "projection_rule", "projection_execute_core", "projection_execute"], "oracle": "sem"},
     "C19": {
